@@ -246,7 +246,8 @@ func c18History(r *rng, nOps int, script *[]*string) (types []reflect.Type, gts 
 		g := genClass(r)
 		gts, types = append(gts, g), append(types, g.t)
 	}
-	for _, t := range []reflect.Type{reflect.TypeOf(ShapeConflict{}), reflect.TypeOf(ShapeText{}), reflect.TypeOf(ShapeShadow{})} {
+	for _, t := range []reflect.Type{reflect.TypeOf(ShapeConflict{}), reflect.TypeOf(ShapeText{}), reflect.TypeOf(ShapeShadow{}),
+		reflect.TypeOf(ShapeEmbVal{}), reflect.TypeOf(ShapeEmbFirst{}), reflect.TypeOf(ShapeEmbLast{}), reflect.TypeOf(ShapeEmbTwo{}), reflect.TypeOf(ShapeEmbDeep{})} {
 		gts, types = append(gts, nil), append(types, t)
 	}
 	nModelled = len(types)
